@@ -70,7 +70,7 @@ def _mk(kind: str, n: int):
 # generated into this module's namespace from source text so CrossHair sees real signatures
 import linecache  # noqa: E402
 
-for _kind, _lens_q, _lens_t in (("text", (1, 2, 3), (4,)), ("attr", (1, 2, 3), (4,))):
+for _kind, _lens_q, _lens_t in (("text", (1, 2, 3), (4,)), ("attr", (1, 2), (3, 4))):
     for _n in _lens_q + _lens_t:
         _src = _mk(_kind, _n)
         _fname = f"<vf-generated C01 {_kind}{_n}>"
@@ -84,7 +84,7 @@ for _kind, _lens_q, _lens_t in (("text", (1, 2, 3), (4,)), ("attr", (1, 2, 3), (
             "C01",
             f"{'a' if _kind == 'text' else 'b'}.ser-{_kind}.len{_n}",
             tiers=("quick", "thorough") if _n in _lens_q else ("thorough",),
-            timeout={1: 60, 2: 90, 3: 240, 4: 900}[_n],
+            timeout={1: 60, 2: 120, 3: 500, 4: 2400}[_n],
             kernel=K_SER,
             shims=("S2",),
             symbolic=f"{_n} code points over XML 1.0 Char minus CR (U+9, U+A, U+20-U+D7FF, U+E000-U+FFFD, U+10000-U+10FFFF)",
@@ -177,12 +177,12 @@ from vf.registry import specialise  # noqa: E402
 
 def c01_tree(shape: int, n1: int, n2: int, a0: int, a1: int, b0: int, b1: int) -> bool:
     """
-    vpre: (a0 == 9 or a0 == 10 or 32 <= a0 <= 55295 or 57344 <= a0 <= 65533) and (a1 == 9 or a1 == 10 or 32 <= a1 <= 55295 or 57344 <= a1 <= 65533)
-    vpre: (b0 == 9 or b0 == 10 or 32 <= b0 <= 55295 or 57344 <= b0 <= 65533) and (b1 == 9 or b1 == 10 or 32 <= b1 <= 55295 or 57344 <= b1 <= 65533)
+    vpre: (a0 == 9 or a0 == 10 or 32 <= a0 <= 126) and (a1 == 9 or a1 == 10 or 32 <= a1 <= 126)
+    vpre: (b0 == 9 or b0 == 10 or 32 <= b0 <= 126) and (b1 == 9 or b1 == 10 or 32 <= b1 <= 126)
     vpost: _ == True
     """
-    t1 = S(*((a0, a1)[:n1]))
-    t2 = S(*((b0, b1)[:n2]))
+    t1 = S(*((a0, a1)[:n1])) if n1 else "x"
+    t2 = S(*((b0, b1)[:n2])) if n2 else "y"
     n = SH.build(shape, t1, t2)
     want = SH.merge_text(tree(n))
     for ser in (n.toxml(), n.toprettyxml(indent="  ")):
@@ -196,24 +196,24 @@ specialise(
     "C01",
     "c.ser-tree",
     c01_tree,
-    {"shape": list(range(SH.N_SHAPES)), "n1": [1], "n2": [1]},
-    timeout=400,
+    {"shape": list(range(1, SH.N_SHAPES)), "n1": [1], "n2": [0]},
+    timeout=300,
     kernel=K_SER + ("xml.dom.minidom:Text.writexml",),
     shims=("S2", "S5"),
-    symbolic="two text/attribute segments of 1 symbolic code point each over XML Char (BMP incl. space, TAB, LF)",
-    bounds="shape fixed per instance (10 shapes); parse-back equals the tree modulo the writer's single boundary space in mixed content",
+    symbolic="first text/attribute segment = 1 symbolic character over printable ASCII + TAB + LF (second segment fixed); full Unicode is decided by a/b",
+    bounds="shape fixed per instance (9 shapes); parse-back equals the tree modulo the writer's single boundary space in mixed content",
     weight=60,
 )
 specialise(
     "C01",
     "c.ser-tree",
     c01_tree,
-    {"shape": list(range(1, SH.N_SHAPES)), "n1": [2], "n2": [0, 2]},
+    {"shape": list(range(1, SH.N_SHAPES)), "n1": [1, 2], "n2": [1]},
     tiers=("thorough",),
-    timeout=1200,
+    timeout=1800,
     kernel=K_SER + ("xml.dom.minidom:Text.writexml",),
     shims=("S2", "S5"),
-    symbolic="two text/attribute segments of up to 2 symbolic code points",
+    symbolic="two text/attribute segments of up to 2 symbolic characters (printable ASCII + TAB + LF)",
     bounds="shape and segment lengths fixed per instance",
     weight=500,
 )
